@@ -14,9 +14,13 @@ def run_rule_cases(variant, groups, wd, name, flags=0, extra_lines_before=(), ha
     lines += list(extra_lines_before)
     for gi, g in enumerate(groups):
         lines.append("note g%d" % gi)
+        for pre in g.get("pre", ()):
+            if pre.startswith("__"):
+                lines.append(pre[2:])         # options that must be in force before the compiler exists
         lines.append("compiler 0")
         for pre in g.get("pre", ()):
-            lines.append(pre)
+            if not pre.startswith("__"):
+                lines.append(pre)
         src = g["src"] if isinstance(g["src"], bytes) else g["src"].encode("latin-1")
         lines.append("add 0 %s %s" % (g.get("ns") or "-", yv.hx(src)))
         lines.append("getrules 0 0")
